@@ -28,6 +28,10 @@ CHECKS = {
          "VTLCalendar is the Gregorian calendar, ISO-8601 week numbering and the VTL periods in TLA+ integer arithmetic; for every requested year (quick: boundary years - leap, 53-week, century - plus seeded ones; thorough: EVERY year 1900-2100) TLC checks the theorems W53 exists <=> the ISO year has 53 weeks, D366 <=> leap year, shifting by k then -k is the identity for every period and every k in -60..60 (hence injective), and emits the expected tables. The engine is replayed in bulk: timeshift over ALL periods of all six indicators for each shift, time_agg for every (source, target) indicator pair incl. the error for finer targets, period_indicator / getyear on periods, getyear / getmonth / dayofmonth / dayofyear / cast(date, time_period) / time_agg(first|last) on EVERY day, dateadd (6 units x 10 amounts) and datediff on month-boundary days; generated series with gaps (timeshift, fill_time_series single / all, flow_to_stock, stock_to_flow) are validated by TLC (VTLTimeSeries_Trace). VTLCalendar itself is checked against Python datetime on every emitted day.",
          "Not judged (spec/READINGS.md 16-19): time_agg to the same indicator, a week straddling two target periods, getmonth / dayofmonth / dayofyear of non-daily periods; series carry small integers without nulls; quick tier uses a seeded subset of shifts per run (all shifts in the model).",
          "TLC evaluation of the calendar model over the complete period domain, bulk replay into run(), trace validation of series operators"),
+ 'C09': ('model_checking',
+         "VTLCast transcribes the documented explicit-cast table, the conversion details the documentation states and the renaming rule of the dataset form; a String source is a descriptor carrying the values its text denotes under the documented input formats, so the spec never parses text. TLC (GenCast) enumerates ALL 8x8 (source, target) pairs x the value pool of the source type (0, negatives, fractional, booleans, every period indicator incl. W53 / D366, same / different interval dates, duration codes, unparsable / padded / out-of-range texts, null) and emits the documented outcome of each point (value, semantic error, runtime error, or not determined). Every point is replayed at component level (calc), dataset level (single measure: name and type of the result measure) and, where the source type has literals, scalar level; forbidden pairs must already fail in semantic_analysis(); unconvertible values are run one by one and must raise a VTL error.",
+         "A pair of the implicit table is accepted by cast (Date -> Time, Time_Period -> Time). Not determined by the documentation and not judged: Number / Date / Time_Period -> String formatting, Number -> Integer of a fractional value. cast with a mask is documented as not implemented and is not exercised.",
+         "TLC enumeration of the documented cast table x value pools replayed into semantic_analysis() and run() at three levels"),
  'C10': ('model_checking',
          "Every successful run made by the random drivers of all modelled operator families and of a sample (thorough: all) of the ~1260 upstream corpus scripts is recorded as one event holding the structures semantic_analysis() predicts and the structures, column order and typed values run() returns; TLC validates each event against VTLStruct_Trace: same result names, components (names, roles, types, nullability, order), column order, every value of its component's type, identifiers non-null and unique, non-nullable components never null, at most one datapoint without identifiers. The machine invariant Closure (everything the abstract statement machine stores is WellFormed) is checked by TLC in the generation models of C01-C05.",
          "For scripts outside the modelled subset the oracle of the structure is semantic_analysis() itself, exactly as the property states. Temporal values are recognised by the documented output patterns; at most 400 datapoints per result are validated.",
